@@ -770,6 +770,12 @@ func init() {
 					// output files in sub-directories of the files directory
 					cases[len(cases)-1].Tweak = func(s *pgen.Spec) { s.NestFilesPct = 40 }
 				}
+				if i%6 == 3 {
+					// the pipestance directory is reached through a symlinked parent
+					// directory, and half of the output files are named by the stage
+					// with their physical path (as realpath / pwd -P would give it)
+					cases[len(cases)-1].Tweak = func(s *pgen.Spec) { s.SymlinkedParent = true; s.PhysicalPathsPct = 50 }
+				}
 				if fc := cases[len(cases)-1]; fc.Template == pgen.NTemplates+8 {
 					// skeleton 7: a consumer that fails transiently and is retried
 					// must still find the producer's files
